@@ -382,10 +382,14 @@ func runC05() int {
 	pool := core.NewPool()
 	names, depth, maxStates, budget := []string{"A", "B", "C", "D", "E"}, 5, 300000, 90*time.Second
 	if rep.Thorough() {
-		names, depth, maxStates, budget = c05U.order, 7, 4000000, 20*time.Minute
+		names, depth, maxStates, budget = c05U.order, 7, 4000000, 15*time.Minute
 	}
 	c05Component(rep, pool, names, depth, maxStates, time.Now().Add(budget))
-	rep.Coverage["rule"] = "explicit-state BFS over {add tx (trusted/untrusted), remove, conflicting-query, add-request, tick 3.1s} on the real MemPool with txs A,B (same outpoint), C (two outpoints, overlapping A/B and D), D, E (independent), F (child of A), G; conflict sets, flags and the outpoint index compared with map[outpoint]set<txid> after every step"
-	rep.Assumptions = []string{"passthrough clock (no concurrency at component level; node-level part covers sources/arrival orders)"}
+	compStates, _ := rep.Coverage["states"].(int)
+	rep.Coverage["component_states"] = compStates
+	rep.Coverage["component_depth"] = rep.Coverage["depth_completed"]
+	histCheckInto(rep, histCheck{prop: "C05", scenarios: c05NodeScenarios(), depthQ: 4, depthT: 6, statesQ: 250000, statesT: 4000000,
+		budgetQ: 120 * time.Second, budgetT: 15 * time.Minute, assume: peerAssumption,
+		rule: "(1) component: explicit-state BFS over {add tx (trusted/untrusted), remove, conflicting-query, add-request, tick 3.1s} on the real MemPool with txs A,B (same outpoint), C (two outpoints, overlapping A/B and D), D, E (independent), F (child of A), G; conflict sets, flags and the outpoint index compared with map[outpoint]set<txid> after every step. (2) node: explicit-state BFS over arrival orders and sources of R1, D1 (relevant double spend), D2 (irrelevant double spend), R3, M1 (spends the outpoints of I1 and R3), I1, confirmations that evict some of them, clock and restart on the real Node.Run; every relevant member of a conflicting pair must be reported unsafe and never safe afterwards, txs sharing no outpoint are never flagged"})
 	return rep.Finish()
 }
